@@ -1,5 +1,12 @@
 /-! M2: `asyncio.Queue` (unbounded) with the `async with queue as item` context manager of
-`asyncio_taskpool.queue_context.Queue`. Import-free. -/
+`asyncio_taskpool.queue_context.Queue`. Import-free.
+
+The state has two layers.
+* `K`, the *accounting core*: the item deque, `_unfinished_tasks`, the `_finished` event with its waiters, the
+  join tasks, what every consumer is doing (`CPhase`) and the ghost counters of C20.  Everything C20 talks about.
+* the *asyncio shell* around it (`Q`): the `_getters` deque, the per-task bookkeeping of the event loop
+  (`Aux`: state of the awaited future, `must_cancel`, scheduled), the ready queue and the observation log.
+  The shell decides *which* core operation happens; it never edits the core by hand. -/
 namespace Taskpool.QueueM
 
 inductive FSt | pending | woken | cancelled
@@ -11,16 +18,42 @@ deriving DecidableEq, Repr, Inhabited
 
 inductive CPhase
   | notStarted
-  | waiting                    -- inside `__aenter__`, suspended in `get()`
-  | inBlock (item : Nat)       -- the body runs / is suspended on its gate
-  | done (e : Exit)
+  | waiting                        -- inside `__aenter__`, suspended in `get()`
+  | inBlock (item : Nat)           -- the body runs / is suspended on its gate
+  | done (e : Exit) (took : Bool)  -- `took`: an item had been handed to its block
 deriving DecidableEq, Repr, Inhabited
 
-structure Consumer where
-  phase      : CPhase
-  gate       : FSt              -- the future the body awaits (meaningful in `inBlock`)
-  gateExc    : Bool             -- the gate was resolved with an exception
-  suspended  : Bool             -- really suspended on a pending future
+/-- the part of a consumer C20 talks about -/
+structure Core where
+  phase : CPhase
+  marks : Nat                      -- ghost: `task_done()` calls made by this consumer's `__aexit__`
+deriving DecidableEq, Repr, Inhabited
+
+/-! vocabulary of the C20 statements -/
+
+def isInBlock : CPhase → Bool
+  | .inBlock _ => true
+  | _ => false
+
+/-- not yet handed an item: not started, or waiting inside `get()` -/
+def preBlock : CPhase → Bool
+  | .notStarted => true
+  | .waiting => true
+  | _ => false
+
+/-- the consumer was handed an item and has left its block -/
+def tookDone : CPhase → Bool
+  | .done _ true => true
+  | _ => false
+
+def Core.inBlock (x : Core) : Bool := isInBlock x.phase
+def Core.tookDone (x : Core) : Bool := QueueM.tookDone x.phase
+
+/-- event-loop bookkeeping of a consumer task -/
+structure Aux where
+  gate       : FSt                 -- the future the task awaits (the getter in `waiting`, the body's gate in `inBlock`)
+  gateExc    : Bool                -- the gate was resolved with an exception
+  suspended  : Bool                -- really suspended on a pending future
   mustCancel : Bool
   sched      : Bool
 deriving Repr, Inhabited
@@ -30,9 +63,9 @@ deriving DecidableEq, Repr, Inhabited
 
 structure Joiner where
   phase : JPhase
-  fut   : FSt
+  fut   : FSt                      -- its waiter future of the `_finished` event
   sched : Bool
-deriving Repr, Inhabited
+deriving DecidableEq, Repr, Inhabited
 
 inductive Ref | consumer (c : Nat) | joiner (j : Nat)
 deriving DecidableEq, Repr, Inhabited
@@ -41,33 +74,137 @@ inductive Ev
   | got (c item : Nat) | exited (c : Nat) | taskDone (u : Nat) | valueError | sawCancel (c : Nat) | joined (j : Nat)
 deriving DecidableEq, Repr, Inhabited
 
-structure Q where
-  items      : List Nat
-  unfinished : Nat
-  finished   : Bool                    -- the `_finished` event
-  getters    : List Nat                -- `_getters`: consumer ids; the state of each future is the consumer's `gate`
-  evWaiters  : List Nat                -- waiters of `_finished`: joiner ids with pending futures
-  consumers  : List Consumer
-  joiners    : List Joiner
-  puts       : Nat                     -- ghost: number of puts
-  exits      : Nat                     -- ghost: number of block exits
-  emit       : List Ref
-  log        : List Ev
+/-! ## the accounting core -/
+
+structure K where
+  items       : List Nat
+  unfinished  : Nat                -- `_unfinished_tasks`
+  finished    : Bool               -- the `_finished` event
+  evWaiters   : List Nat           -- waiters of `_finished`: joiner ids (their futures may be resolved already)
+  cores       : List Core
+  joiners     : List Joiner
+  puts        : Nat                -- ghost: number of puts
+  exits       : Nat                -- ghost: number of block exits
+  tdCalls     : Nat                -- ghost: number of `task_done()` calls
+  valueErrors : Nat                -- ghost: how many of them raised `ValueError`
 deriving Repr, Inhabited
 
-def Q.init : Q :=
-  { items := [], unfinished := 0, finished := true, getters := [], evWaiters := [], consumers := [], joiners := [],
-    puts := 0, exits := 0, emit := [], log := [] }
+def K.init : K :=
+  { items := [], unfinished := 0, finished := true, evWaiters := [], cores := [], joiners := [],
+    puts := 0, exits := 0, tdCalls := 0, valueErrors := 0 }
+
+namespace K
+
+def setPhase (k : K) (c : Nat) (p : CPhase) : K := { k with cores := k.cores.modify c fun x => { x with phase := p } }
+def addMark (k : K) (c : Nat) : K := { k with cores := k.cores.modify c fun x => { x with marks := x.marks + 1 } }
+
+/-- `put_nowait`: append, count, clear the event -/
+def put (k : K) (x : Nat) : K :=
+  { k with items := k.items ++ [x], unfinished := k.unfinished + 1, finished := false, puts := k.puts + 1 }
+
+def spawn (k : K) : K := { k with cores := k.cores ++ [{ phase := .notStarted, marks := 0 }] }
+def join (k : K) : K := { k with joiners := k.joiners ++ [{ phase := .notStarted, fut := .pending, sched := true }] }
+
+/-- `get()` finds the queue empty: a getter future is awaited -/
+def wait (k : K) (c : Nat) : K := k.setPhase c .waiting
+
+/-- `get_nowait()` + `__aenter__` returns: the item is handed to the block -/
+def take (k : K) (c : Nat) : K :=
+  match k.items with
+  | [] => k
+  | x :: rest => ({ k with items := rest } : K).setPhase c (.inBlock x)
+
+/-- `CancelledError` leaves `get()`: nothing was taken -/
+def abort (k : K) (c : Nat) : K := k.setPhase c (.done .cancelled false)
+
+/-- would `_finished.set()` resolve the future of joiner `j`? -/
+def wakes (k : K) (j : Nat) (x : Joiner) : Bool := k.evWaiters.contains j && x.fut == .pending
+
+/-- the wake-up handles `_finished.set()` queues, in waiter order -/
+def wokenRefs (k : K) : List Ref :=
+  (k.evWaiters.filter fun j => match k.joiners[j]? with | some x => x.fut == .pending | none => false).map .joiner
+
+/-- `_finished.set()`: every waiter future that is still pending is resolved -/
+def setFinished (k : K) : K :=
+  { k with finished := true,
+           joiners := k.joiners.mapIdx fun j x => if k.wakes j x then { x with fut := .woken, sched := true } else x }
+
+/-- `task_done()` when the counter is positive -/
+def taskDoneOk (k : K) : K :=
+  let k1 : K := { k with unfinished := k.unfinished - 1 }
+  if k1.unfinished = 0 then k1.setFinished else k1
+
+/-- `task_done()` -/
+def taskDone (k : K) : K :=
+  let k : K := { k with tdCalls := k.tdCalls + 1 }
+  if k.unfinished = 0 then { k with valueErrors := k.valueErrors + 1 } else k.taskDoneOk
+
+/-- the block of consumer `c` is left: `__aexit__` calls `item_processed()` -/
+def exit (k : K) (c : Nat) (e : Exit) : K :=
+  ((({ k with exits := k.exits + 1 } : K).taskDone).addMark c).setPhase c (.done e true)
+
+/-- does this step of joiner `j` make `join()` return? -/
+def joins (k : K) (j : Nat) : Bool :=
+  match k.joiners[j]? with
+  | none => false
+  | some x => x.sched && (match x.phase with
+      | .notStarted => !(k.unfinished > 0 && !k.finished)
+      | .waiting => true
+      | .done => false)
+
+def modJ (k : K) (j : Nat) (f : Joiner → Joiner) : K := { k with joiners := k.joiners.modify j f }
+
+/-- first step of `join()`: `if self._unfinished_tasks > 0: await self._finished.wait()` -/
+def joinStart (k : K) (j : Nat) : K :=
+  if k.unfinished > 0 && !k.finished then
+    ({ k with evWaiters := k.evWaiters ++ [j] } : K).modJ j fun x => { x with phase := .waiting, sched := false }
+  else k.modJ j fun x => { x with phase := .done, sched := false }
+
+/-- wake-up inside `Event.wait()`: the waiter removes itself, `join()` returns -/
+def joinWake (k : K) (j : Nat) : K :=
+  ({ k with evWaiters := k.evWaiters.erase j } : K).modJ j fun x => { x with phase := .done, sched := false }
+
+def stepJoiner (k : K) (j : Nat) : K :=
+  match k.joiners[j]? with
+  | none => k
+  | some x =>
+    if !x.sched then k else
+    match x.phase with
+    | .notStarted => k.joinStart j
+    | .waiting => k.joinWake j
+    | .done => k.modJ j fun x => { x with sched := false }
+
+end K
+
+/-! ## the asyncio shell -/
+
+structure Q where
+  k       : K
+  getters : List Nat               -- `_getters`: consumer ids; the state of each future is the consumer's `gate`
+  aux     : List Aux
+  ready   : List Ref               -- the loop's ready queue
+  log     : List Ev                -- cumulative observation log
+deriving Repr, Inhabited
+
+def Q.init : Q := { k := K.init, getters := [], aux := [], ready := [], log := [] }
+
+inductive Input
+  | put (x : Nat)
+  | spawn                          -- a new consumer task `async with queue as item: await gate`
+  | join                           -- a new task awaiting `queue.join()`
+  | cancel (c : Nat)               -- `Task.cancel()` on consumer `c`
+  | gate (c : Nat) (exc : Bool)    -- the body of consumer `c` finishes normally / raises
+  | run (i : Nat)                  -- the loop executes the `i`-th ready handle
+deriving DecidableEq, Repr, Inhabited
 
 namespace Q
 
-def modC (q : Q) (c : Nat) (f : Consumer → Consumer) : Q := { q with consumers := q.consumers.modify c f }
-def modJ (q : Q) (j : Nat) (f : Joiner → Joiner) : Q := { q with joiners := q.joiners.modify j f }
+def setK (q : Q) (k : K) : Q := { q with k := k }
+def modA (q : Q) (c : Nat) (f : Aux → Aux) : Q := { q with aux := q.aux.modify c f }
 def logEv (q : Q) (e : Ev) : Q := { q with log := q.log ++ [e] }
-def schedC (q : Q) (c : Nat) : Q := { (q.modC c fun x => { x with sched := true }) with emit := q.emit ++ [.consumer c] }
-def schedJ (q : Q) (j : Nat) : Q := { (q.modJ j fun x => { x with sched := true }) with emit := q.emit ++ [.joiner j] }
+def schedC (q : Q) (c : Nat) : Q := { (q.modA c fun x => { x with sched := true }) with ready := q.ready ++ [.consumer c] }
 
-def gateOf (q : Q) (c : Nat) : FSt := (q.consumers[c]?.map (·.gate)).getD .cancelled
+def gateOf (q : Q) (c : Nat) : FSt := (q.aux[c]?.map (·.gate)).getD .cancelled
 
 /-- `_wakeup_next(self._getters)`: pop getters until one that is not done is found and resolve it -/
 def wakeupNext (q : Q) : List Nat → List Nat × Option Nat
@@ -79,141 +216,129 @@ def wakeGetter (q : Q) : Q :=
   let q : Q := { q with getters := r.1 }
   match r.2 with
   | none => q
-  | some c => (q.modC c fun x => { x with gate := .woken, suspended := false }).schedC c
+  | some c => (q.modA c fun x => { x with gate := .woken, suspended := false }).schedC c
 
 /-- `put_nowait` -/
-def put (q : Q) (x : Nat) : Q :=
-  ({ q with items := q.items ++ [x], unfinished := q.unfinished + 1, finished := false, puts := q.puts + 1 } : Q).wakeGetter
-
-/-- `_finished.set()`: every waiting joiner's future is resolved -/
-def setFinished (q : Q) : Q :=
-  q.evWaiters.foldl (fun q j => (q.modJ j fun x => { x with fut := .woken }).schedJ j) { q with finished := true }
-
-/-- `task_done()` when the counter is positive -/
-def taskDoneOk (q : Q) : Q :=
-  let q1 : Q := ({ q with unfinished := q.unfinished - 1 } : Q).logEv (.taskDone (q.unfinished - 1))
-  if q1.unfinished = 0 then q1.setFinished else q1
-
-/-- `task_done()` via `item_processed()` -/
-def taskDone (q : Q) : Q :=
-  if q.unfinished = 0 then q.logEv .valueError else q.taskDoneOk
+def put (q : Q) (x : Nat) : Q := (q.setK (q.k.put x)).wakeGetter
 
 /-- the body of the block is suspended on its gate; a pending `must_cancel` cancels it at once -/
-def enterBlock (q : Q) (c : Nat) (item : Nat) : Q :=
-  let q := q.logEv (.got c item)
-  match q.consumers[c]? with
+def armGate (q : Q) (c : Nat) : Q :=
+  match q.aux[c]? with
   | none => q
-  | some k =>
-    if k.mustCancel then
-      (q.modC c fun x => { x with phase := .inBlock item, gate := .cancelled, suspended := false, mustCancel := false }).schedC c
-    else q.modC c fun x => { x with phase := .inBlock item, gate := .pending, gateExc := false, suspended := true }
+  | some a =>
+    if a.mustCancel then
+      (q.modA c fun x => { x with gate := .cancelled, suspended := false, mustCancel := false }).schedC c
+    else q.modA c fun x => { x with gate := .pending, gateExc := false, suspended := true }
+
+/-- wait in `get()`: a new getter future; a pending `must_cancel` cancels it at once (the wake-up will run the
+`except` clause) -/
+def waitGetter (q : Q) (c : Nat) : Q :=
+  let q : Q := { q with getters := q.getters ++ [c] }
+  match q.aux[c]? with
+  | none => q
+  | some a =>
+    if a.mustCancel then
+      (q.modA c fun x => { x with gate := .cancelled, suspended := false, mustCancel := false }).schedC c
+    else q.modA c fun x => { x with gate := .pending, suspended := true }
 
 /-- `get()`: loop while empty -/
 def tryGet (q : Q) (c : Nat) : Q :=
-  match q.items with
-  | [] =>
-    -- wait: a new getter future
-    match q.consumers[c]? with
-    | none => q
-    | some k =>
-      if k.mustCancel then
-        -- the future is cancelled at once; the wake-up will run the `except` clause
-        ({ q with getters := q.getters ++ [c] } : Q).modC c
-          (fun x => { x with phase := .waiting, gate := .cancelled, suspended := false, mustCancel := false }) |>.schedC c
-      else
-        ({ q with getters := q.getters ++ [c] } : Q).modC c fun x => { x with phase := .waiting, gate := .pending, suspended := true }
-  | x :: rest => ({ q with items := rest } : Q).enterBlock c x
+  match q.k.items with
+  | [] => (q.setK (q.k.wait c)).waitGetter c
+  | x :: _ => ((q.setK (q.k.take c)).logEv (.got c x)).armGate c
 
-/-- the block is left: `__aexit__` calls `item_processed()` -/
+/-- the block is left: `__aexit__` calls `item_processed()`, i.e. `task_done()` -/
 def exitBlock (q : Q) (c : Nat) (e : Exit) : Q :=
-  ((({ q with exits := q.exits + 1 } : Q).logEv (.exited c)).taskDone).modC c fun x => { x with phase := .done e, suspended := false }
+  ({ q with k := q.k.exit c e,
+            ready := q.ready ++ (if q.k.unfinished = 1 then q.k.wokenRefs else []),
+            log := q.log ++ [.exited c, if q.k.unfinished = 0 then .valueError else .taskDone (q.k.unfinished - 1)] } : Q).modA c
+    fun x => { x with suspended := false }
+
+/-- `except: getter.cancel(); remove from _getters; if not empty and not getter.cancelled(): wake next; raise` -/
+def abortGet (q : Q) (c : Nat) (wasResolved : Bool) : Q :=
+  let q : Q := { q with getters := q.getters.erase c }
+  let q := if !q.k.items.isEmpty && wasResolved then q.wakeGetter else q
+  (q.logEv (.sawCancel c)).setK (q.k.abort c)
 
 /-- a consumer wakes up inside `get()` -/
-def wakeWaiting (q : Q) (c : Nat) (k : Consumer) : Q :=
-  let cancelP := k.gate == .cancelled || k.mustCancel
-  let q := q.modC c fun x => { x with mustCancel := false, suspended := false }
-  if cancelP then
-    -- `except: getter.cancel(); remove from _getters; if not empty and not getter.cancelled(): wake next; raise`
-    let wasResolved := k.gate == .woken
-    let q : Q := { q with getters := q.getters.erase c }
-    let q := if !q.items.isEmpty && wasResolved then q.wakeGetter else q
-    (q.logEv (.sawCancel c)).modC c fun x => { x with phase := .done .cancelled }
+def wakeWaiting (q : Q) (c : Nat) (a : Aux) : Q :=
+  let q' := q.modA c fun x => { x with mustCancel := false, suspended := false }
+  if a.gate == .cancelled || a.mustCancel then q'.abortGet c (a.gate == .woken) else q'.tryGet c
+
+/-- a consumer wakes up inside its block -/
+def leaveBlock (q : Q) (c : Nat) (a : Aux) : Q :=
+  let q := q.modA c fun x => { x with mustCancel := false }
+  if a.gate == .cancelled || a.mustCancel then (q.logEv (.sawCancel c)).exitBlock c .cancelled
+  else if a.gateExc then q.exitBlock c .exc
+  else q.exitBlock c .ok
+
+/-- first step of a consumer task; a task cancelled before it never runs its body -/
+def startConsumer (q : Q) (c : Nat) (a : Aux) : Q :=
+  if a.mustCancel then (q.modA c fun x => { x with mustCancel := false }).setK (q.k.abort c)
   else q.tryGet c
 
 def stepConsumer (q : Q) (c : Nat) : Q :=
-  match q.consumers[c]? with
-  | none => q
-  | some k =>
-    if !k.sched then q else
-    let q := q.modC c fun x => { x with sched := false }
-    match k.phase with
-    | .notStarted =>
-      if k.mustCancel then q.modC c fun x => { x with phase := .done .cancelled, mustCancel := false }
-      else q.tryGet c
-    | .waiting => q.wakeWaiting c k
-    | .inBlock _ =>
-      let q := q.modC c fun x => { x with mustCancel := false }
-      if k.gate == .cancelled || k.mustCancel then (q.logEv (.sawCancel c)).exitBlock c .cancelled
-      else if k.gateExc then q.exitBlock c .exc
-      else q.exitBlock c .ok
-    | .done _ => q
+  match q.k.cores[c]?, q.aux[c]? with
+  | some kc, some a =>
+    if !a.sched then q else
+    let q := q.modA c fun x => { x with sched := false }
+    match kc.phase with
+    | .notStarted => q.startConsumer c a
+    | .waiting => q.wakeWaiting c a
+    | .inBlock _ => q.leaveBlock c a
+    | .done _ _ => q
+  | _, _ => q
+
+def isDone : CPhase → Bool
+  | .done _ _ => true
+  | _ => false
 
 /-- `Task.cancel()` on a consumer -/
 def cancelConsumer (q : Q) (c : Nat) : Q :=
-  match q.consumers[c]? with
-  | none => q
-  | some k =>
-    match k.phase with
-    | .done _ => q
-    | .waiting =>
-      if k.suspended && k.gate == .pending then
-        (q.modC c fun x => { x with gate := .cancelled, suspended := false }).schedC c
-      else q.modC c fun x => { x with mustCancel := true }
-    | .inBlock _ =>
-      if k.suspended && k.gate == .pending then
-        (q.modC c fun x => { x with gate := .cancelled, suspended := false }).schedC c
-      else q.modC c fun x => { x with mustCancel := true }
-    | .notStarted => q.modC c fun x => { x with mustCancel := true }
+  match q.k.cores[c]?, q.aux[c]? with
+  | some kc, some a =>
+    if isDone kc.phase then q
+    else if a.suspended && a.gate == .pending then
+      (q.modA c fun x => { x with gate := .cancelled, suspended := false }).schedC c
+    else q.modA c fun x => { x with mustCancel := true }
+  | _, _ => q
 
-def gate (q : Q) (c : Nat) (exc : Bool) : Q × Bool :=
-  match q.consumers[c]? with
-  | none => (q, false)
-  | some k =>
-    match k.phase with
-    | .inBlock _ =>
-      if k.suspended && k.gate == .pending then
-        ((q.modC c fun x => { x with gate := .woken, gateExc := exc, suspended := false }).schedC c, true)
-      else (q, false)
-    | _ => (q, false)
+/-- can the harness resolve the gate of consumer `c`? -/
+def canGate (q : Q) (c : Nat) : Bool :=
+  match q.k.cores[c]?, q.aux[c]? with
+  | some kc, some a => (match kc.phase with | .inBlock _ => true | _ => false) && a.suspended && a.gate == .pending
+  | _, _ => false
+
+def gate (q : Q) (c : Nat) (exc : Bool) : Q :=
+  if q.canGate c then (q.modA c fun x => { x with gate := .woken, gateExc := exc, suspended := false }).schedC c else q
 
 def spawn (q : Q) : Q :=
-  let c := q.consumers.length
-  { q with consumers := q.consumers ++ [{ phase := .notStarted, gate := .pending, gateExc := false, suspended := false,
-                                          mustCancel := false, sched := true }],
-           emit := q.emit ++ [.consumer c] }
+  { q with k := q.k.spawn,
+           aux := q.aux ++ [{ gate := .pending, gateExc := false, suspended := false, mustCancel := false, sched := true }],
+           ready := q.ready ++ [.consumer q.aux.length] }
 
-def join (q : Q) : Q :=
-  let j := q.joiners.length
-  { q with joiners := q.joiners ++ [{ phase := .notStarted, fut := .pending, sched := true }], emit := q.emit ++ [.joiner j] }
+def join (q : Q) : Q := { q with k := q.k.join, ready := q.ready ++ [.joiner q.k.joiners.length] }
 
 def stepJoiner (q : Q) (j : Nat) : Q :=
-  match q.joiners[j]? with
-  | none => q
-  | some k =>
-    if !k.sched then q else
-    let q := q.modJ j fun x => { x with sched := false }
-    match k.phase with
-    | .notStarted =>
-      if q.unfinished > 0 && !q.finished then
-        ({ q with evWaiters := q.evWaiters ++ [j] } : Q).modJ j fun x => { x with phase := .waiting }
-      else (q.logEv (.joined j)).modJ j fun x => { x with phase := .done }
-    | .waiting =>
-      (({ q with evWaiters := q.evWaiters.erase j } : Q).logEv (.joined j)).modJ j fun x => { x with phase := .done }
-    | .done => q
+  { q with k := q.k.stepJoiner j, log := q.log ++ (if q.k.joins j then [.joined j] else []) }
 
 def runRef (q : Q) : Ref → Q
   | .consumer c => q.stepConsumer c
   | .joiner j => q.stepJoiner j
+
+def step (q : Q) : Input → Q
+  | .put x => q.put x
+  | .spawn => q.spawn
+  | .join => q.join
+  | .cancel c => q.cancelConsumer c
+  | .gate c exc => q.gate c exc
+  | .run i =>
+    match q.ready[i]? with
+    | none => q
+    | some r => ({ q with ready := q.ready.eraseIdx i } : Q).runRef r
+
+/-- the state after a history -/
+def run (q : Q) (ins : List Input) : Q := ins.foldl step q
 
 end Q
 end Taskpool.QueueM
